@@ -6,7 +6,7 @@ Core Lean only.
 -/
 import NriModel.Basic
 
-namespace Nri.Api
+namespace Nri.NApi
 
 structure Mount where
   destination : Str
@@ -153,4 +153,4 @@ def envKey : Str → Str
 /-- `KeyValue.ToOCI` -/
 def KeyValue.toOCI (e : KeyValue) : Str := e.key ++ ('=' :: e.value)
 
-end Nri.Api
+end Nri.NApi
